@@ -262,12 +262,24 @@ func cmdCheck(args []string) int {
 			} else if out.Tier == "thorough" && ob.Res.Solver != "trivial" {
 				// cross-check: every other solver family decides the same script on its own; a "sat" from any
 				// of them is a disagreement and the obligation no longer counts as discharged
+				var others []int
 				for _, si := range []int{0, 1, 2} {
-					if strings.HasPrefix(ob.Res.Solver, solvers[si].name) {
-						continue
+					if !strings.HasPrefix(ob.Res.Solver, solvers[si].name) {
+						others = append(others, si)
 					}
-					r := solveWith(script, 20, []int{si})
-					ob.Cross = append(ob.Cross, r)
+				}
+				cross := make([]SolverResult, len(others))
+				var cw sync.WaitGroup
+				for k, si := range others {
+					cw.Add(1)
+					go func(k, si int) {
+						defer cw.Done()
+						cross[k] = solveWith(script, 10, []int{si})
+					}(k, si)
+				}
+				cw.Wait()
+				ob.Cross = cross
+				for _, r := range cross {
 					if r.Status == "sat" {
 						ob.Res = SolverResult{Status: "disagreement", Solver: ob.Res.Solver + " vs " + r.Solver, Seconds: ob.Res.Seconds + r.Seconds,
 							Output: "solver disagreement: " + ob.Res.Solver + " answered unsat, " + r.Solver + " answered sat\n" + r.Output}
@@ -589,7 +601,7 @@ func crossSummary(out *propOutcome) map[string]any {
 	}
 	return map[string]any{"enabled": true, "obligations_rechecked": checked, "confirmed_by_a_second_solver_family": confirmed,
 		"confirmations_by_backend": by, "disagreements": disagreements,
-		"note": "each other solver family (z3 5.1.0, z3 4.8.12, cvc5 1.0.3) re-decides the script alone, 20 s; a timeout is not a disagreement"}
+		"note": "each other solver family (z3 5.1.0, z3 4.8.12, cvc5 1.0.3) re-decides the script alone, 10 s; a timeout is not a disagreement"}
 }
 
 // relaxedScript drops every quantified assumption (not the goal, which is the last assert) from a script.
